@@ -369,13 +369,15 @@ def qam_by_evaluation(repo: Repo, rep: Report, fi: FuncInfo) -> int:
     of obligations emitted, 0 when the body is not evaluable (the shape rules then report)."""
     from ..frag import FragRaise, FragReturn, run_fragment
 
-    b2g = repo.func(UT, "binary_to_gray").node
+    # every helper of the modulation utilities (scalar and array Gray maps) and of the QAM module itself may be called
+    helpers = {nm: f.node for nm, f in repo.module(UT).functions.items()}
+    helpers.update({nm: f.node for nm, f in fi.module.functions.items()})
     results = {}
     try:
         for gray in (True, False):
             for k in (2, 4, 8):
                 M, b = k * k, 2 * (k.bit_length() - 1)
-                env = run_fragment(fi.body, {}, {"self.order": M, "self._k": k, "self._bits_per_symbol": b, "self.gray_coding": gray, "self.normalize": False}, max_steps=900000, materialise=True, funcs={"binary_to_gray": b2g})
+                env = run_fragment(fi.body, {}, {"self.order": M, "self._k": k, "self._bits_per_symbol": b, "self.gray_coding": gray, "self.normalize": False}, max_steps=900000, materialise=True, funcs=helpers)
                 pts, bp = env.get("constellation"), env.get("bit_patterns")
                 if not (isinstance(pts, list) and len(pts) == M and all(isinstance(p_, (int, float, complex)) for p_ in pts)):
                     return 0
@@ -583,6 +585,9 @@ def rule_generated(repo: Repo, rep: Report) -> int:
         rep.undecided("GENERATED-TABLE", fi, "QAM(gray_coding=True) label construction", f"shape not recognised (gray maps {okg}, index {okidx}, formats {okfm}, concatenation {len(cat)})")
     n += 1
     g, node = label_generator(fi, {"self.gray_coding": False})
+    if g is None:
+        rep.undecided("GENERATED-TABLE", fi, "QAM(gray_coding=False) label construction", "shape not recognised and the constructor is not evaluable")
+        return n + 1
     rep.check(g == "id", "GENERATED-TABLE", fi, f"QAM(gray_coding=False): label of index i = binary({g if isinstance(g, str) else unparse(g[1])})", "natural binary labels: a bijection", "non-Gray QAM labels are not binary(i)", node=node)
     n += 1
     return n
